@@ -36,6 +36,7 @@ var c05Types = []c05Type{
 	{decl.TUpper, [8]string{"c1", "c2", "i1", "i2", "e1", "e2", "d1", "d2"}, decl.Upper{S: "N0"}},
 	{decl.TMapSS, [8]string{"k:c1", "k:c2", "k:i1", "k:i2", "k:e1", "k:e2", "k:d1", "k:d2"}, map[string]string{"k": "n0", "z": "n1"}},
 	{decl.TCSV, [8]string{"c1,cc", "c2", "i1,ii", "i2", "e1,ee", "e2", "d1,dd", "d2"}, decl.CSV{"n0", "n1"}},
+	{decl.TString, [8]string{"c1", "c2", "i1", "i2", "-e1", "--e2=x", "-d1", "d2"}, "n0"}, // values from the environment and from tags may look like options
 	{decl.TString, [8]string{"c1", "c2", "i1", "i2", "e1", "e2", "", ""}, "n0"},               // the default tag is the empty string: still a default
 	{decl.TStrings, [8]string{"c1", "c2", "i1", "i2", "e1", "e2", "", "d2"}, []string{"n0", "n1"}}, // first of two default tags empty
 }
@@ -142,14 +143,18 @@ func init() {
 				c.Skip()
 			}
 		}
-		env := c.Choose(5) // 0 unset, 1 one value, 2 two values with delimiter, 3 set but empty, 4 three pieces of which the middle one is empty
+		env := c.Choose(6) // 0 unset, 1 one value, 2 two values with delimiter, 3 set but empty, 4 three pieces of which the middle one is empty, 5 ... is malformed
 		if env == 4 && ty.T != decl.TStrings {
 			c.Skip() // an empty piece is an element only for string elements
 		}
+
 		ncli := c.Choose(3)
 		nini := c.Choose(3)
 		hi := c.Choose(len(c05Histories))
 		hist := c05Histories[hi]
+		if env == 5 && (ty.T != decl.TInts || ncli > 0 || hi != 0) {
+			c.Skip() // the malformed piece goes with []int, a command line without the option and the plain history
+		}
 		nest := c.Deviate(7)
 		nsDelim := c.Deviate(3)
 		if isBool && ncli == 2 {
@@ -171,7 +176,7 @@ func init() {
 		if strings.HasPrefix(hist, "config") && nini == 0 {
 			c.Skip()
 		}
-		cd := c05Get(ti, initial, ndef, env == 2 || env == 4, nest, nsDelim, cfgPos)
+		cd := c05Get(ti, initial, ndef, env == 2 || env == 4 || env == 5, nest, nsDelim, cfgPos)
 		delim := []string{"_", "", "__"}[nsDelim]
 
 		// the sources' values
@@ -193,6 +198,8 @@ func init() {
 			envV = []string{""}
 		case 4:
 			envV, envText = []string{ty.Texts[4], "", ty.Texts[5]}, ty.Texts[4]+",,"+ty.Texts[5]
+		case 5:
+			envV, envText = []string{ty.Texts[4]}, ty.Texts[4]+",zz,"+ty.Texts[5]
 		}
 		for i := 0; i < ndef; i++ {
 			defV = append(defV, ty.Texts[6+i])
@@ -401,6 +408,13 @@ func init() {
 		}
 		got := b.Vals[cd.o]
 		c.Outcome(ty.T.Name, winner, hist, ref.Show(got), fmt.Sprint(herr != nil))
+		if env == 5 {
+			c.Hit("malformed-environment-piece")
+			if herr == nil {
+				c.Fail("malformed-environment-piece-accepted", map[string]interface{}{"variable": envText, "stored": ref.Show(got)})
+			}
+			return
+		}
 		if herr != nil {
 			c.Fail("history-step-fails|"+winner+"|"+hist, herr.Error())
 			return
@@ -436,7 +450,7 @@ func init() {
 		ShardDepth: 3,
 		Body:       body,
 		DevBound:   func(bool) int { return 2 },
-		Rule: "12 option types (a string whose default tag is empty, a []string whose first default tag is empty, string, int, bool, *int, []string, []int, map[string]int, Unmarshaler, map[string]string with one key in every source, a slice-kinded Unmarshaler that appends) x initial value present/absent x 0..2 default tags x environment {unset, one value, two values with env-delim, set-but-empty, three pieces with an empty middle one (for []string)} " +
+		Rule: "13 option types (a string whose environment and default values look like options, a string whose default tag is empty, a []string whose first default tag is empty, string, int, bool, *int, []string, []int, map[string]int, Unmarshaler, map[string]string with one key in every source, a slice-kinded Unmarshaler that appends) x initial value present/absent x 0..2 default tags x environment {unset, one value, two values with env-delim, set-but-empty, three pieces with an empty middle one (for []string), three pieces with a malformed middle one (for []int: the parse must fail)} " +
 			"x 0..2 INI entries x 0..2 command-line occurrences x 10 histories (CLI only; INI then CLI; as-defaults INI then CLI; CLI then as-defaults INI; as-defaults, CLI, as-defaults; as-defaults read from a callback option given before / after the occurrences; " +
 			"from a callback option's default declared first / last; two as-defaults reads then CLI) x env-namespace nesting {none, outer, outer+inner, outer only around a plain inner group, inner only inside a plain outer group, option declared on a subcommand, or on a command two levels down, that the command line selects only when the option occurs} x EnvNamespaceDelimiter {_, empty, __} (nesting/delimiter deviation-bounded); one more deviation uses a single IniParser object for all reads of a history; another sets an env-namespace on the parser itself; another builds the parser through the API and adds the option's group only after a first ParseArgs; a second []string option initialised from the same backing array must keep its value; " +
 			"the history machine per option is {untouched, defaulted, ini, explicit}; oracle = precedence function CLI > INI > env > default tags > initial, multi-valued options holding exactly the winner's values",
